@@ -62,6 +62,14 @@ pub fn sum_order_bound(m: usize) -> f64 {
     (4.0 * m as f64 + 8.0) * (2.0f64).powi(-53)
 }
 
+/// Bound for "agrees up to rounding" between the parallel and the sketcher's own estimate: the summation-order
+/// bound plus the conditioning of the terms themselves. A term b^-k may legitimately be evaluated by two
+/// different correctly rounded formulas (exp(-k ln b), powf, a table): a relative error u in the exponent
+/// k ln b shows up as k ln b * u in the term. kmax_lnb = largest register times ln b.
+pub fn estimate_agreement_bound(m: usize, kmax_lnb: f64) -> f64 {
+    sum_order_bound(m) + 16.0 * (kmax_lnb.abs() + 1.0) * (2.0f64).powi(-53)
+}
+
 trait Reg: Integer + ToPrimitive + FromPrimitive + Bounded + Copy + Clone + Debug + Send + Sync {}
 impl Reg for u16 {}
 impl Reg for u32 {}
@@ -170,8 +178,10 @@ where
                 crate::parsum::arm(ctx);
                 let par = mle.get_cardinal_estimate(n.sk.get_signature().as_slice());
                 let rel = ((par - seq) / seq).abs();
-                ctx.check("C06", "parallel-equals-sequential", rel <= slack || par == seq, || {
-                    format!("node {}: parallel estimate {:e} vs sequential {:e}, relative gap {:e} > bound {:e}", k, par, seq, rel, slack)
+                let kmax = got.iter().copied().max().unwrap_or(0) as f64;
+                let bound = estimate_agreement_bound(plan.m, kmax * plan.setp.b().ln());
+                ctx.check("C06", "parallel-equals-sequential", rel <= bound || par == seq, || {
+                    format!("node {}: parallel estimate {:e} vs sequential {:e}, relative gap {:e} > bound {:e}", k, par, seq, rel, bound)
                 })?;
             }
             for x in &got {
@@ -480,7 +490,7 @@ impl Scenario for Gossip {
             stub: &["snapshot = real merge into an empty real sketcher (SetSketcher is not Clone)"],
             assumptions: &[
                 "parameters 'different' means materially different (relative gap >= 1e-6 in a, 1e-4 in b-1, or unequal m / q)",
-                "two summation orders of m positive terms differ by at most (4m+8)*2^-53 relative; monotonicity uses the same slack",
+                "two summation orders of m positive terms differ by at most (4m+8)*2^-53 relative (monotonicity uses that slack); the parallel-vs-own comparison adds 16*(kmax*ln b + 1)*2^-53 for two correctly rounded but different evaluations of the terms b^-k",
             ],
         }
     }
@@ -655,8 +665,10 @@ where
     if plan.source == 0 {
         let seq = sk.get_cardinal_stats().0;
         let rel = ((par1 - seq) / seq).abs();
-        ctx.check("C06", "parallel-equals-sequential", rel <= slack || par1 == seq, || {
-            format!("m={} parallel estimate {:e} vs sequential {:e}: relative gap {:e} > bound {:e}", plan.m, par1, seq, rel, slack)
+        let kmax = regs.iter().map(|r| r.to_u64().unwrap()).max().unwrap_or(0) as f64;
+        let bound = estimate_agreement_bound(plan.m, kmax * plan.setp.b().ln());
+        ctx.check("C06", "parallel-equals-sequential", rel <= bound || par1 == seq, || {
+            format!("m={} parallel estimate {:e} vs sequential {:e}: relative gap {:e} > bound {:e}", plan.m, par1, seq, rel, bound)
         })?;
         if par1 != seq {
             ctx.count("probe:reduction-order-changed-rounding");
